@@ -195,6 +195,43 @@ def main(tier, replay):
                 ctx.sample({"transport": name, "sequence": ref["sequences"][min(7, nseq - 1)], "frames": res["results"][min(7, nseq - 1)].get("frames")})
             if mode == "activate":
                 check_activation(ctx, res, early, name)
+        # the two filesystem address forms must also agree when the path is not fresh: a socket
+        # file nobody listens on (what a killed service leaves behind), and a live service's path
+        # taken over by a second instance after the first was killed
+        for state in ("stale-socket-file", "left-by-killed-instance"):
+            outcomes = {}
+            for name, suffix in (("unix-path", ""), ("unix-path-mode", ";mode=0600")):
+                path = "%s/%s-%s" % (tmp, state, name)
+                addr = "unix:%s%s" % (path, suffix)
+                if state == "stale-socket-file":
+                    s0 = socket.socket(socket.AF_UNIX, socket.SOCK_STREAM)
+                    s0.bind(path)
+                    s0.close()
+                else:
+                    first = Served(vh, addr)
+                    if not first.wait_ready():
+                        outcomes[name] = "first instance does not listen"
+                        first.stop()
+                        continue
+                    first.p.kill()
+                    first.p.wait()
+                sv = Served(vh, addr)
+                servers.append(sv)
+                if not sv.wait_ready():
+                    outcomes[name] = "does not listen"
+                    continue
+                res, early, st, extra = run_client(vh, "address", addr, seed, 3, timeout=30)
+                if res is None:
+                    outcomes[name] = "client %s" % st
+                else:
+                    same = all((not b.get("error")) and a["frames"] == b["frames"] for a, b in zip(ref["results"], res["results"]))
+                    outcomes[name] = "serves" if same else "replies differ: %s" % json.dumps(res["results"])[:300]
+                ctx.count("reply_frames_observed", sum(len(b.get("frames") or []) for b in (res or {}).get("results", [])))
+            ctx.case(("path-state", state))
+            ctx.count("path_state_comparisons")
+            if outcomes.get("unix-path") != outcomes.get("unix-path-mode"):
+                ctx.violation("c16:unix-path-mode:differs-from-plain-path-on-%s" % state, {"engine": "c16", "state": state, "outcomes": outcomes,
+                              "message": "the same filesystem path behaves differently with and without ';' parameters"})
         # activation from a parent whose descriptor 3 is free / occupied
         for variant in ("fd3-occupied",):
             r, w = os.pipe()
